@@ -17,6 +17,7 @@ import (
 	"go/token"
 	"math"
 	"math/big"
+	"strings"
 )
 
 // gridBits is G for the exploration in progress (set by Machine.Explore; one exploration
@@ -91,6 +92,69 @@ func realBinop(op token.Token, a, b sym) value {
 	panic(unsupported(fmt.Sprintf("operator %v on exact-grid floats (only +,-,comparisons are exact)", op)))
 }
 
+// f64Const extracts the value of a concrete float64 term.
+func f64Const(a sym) (float64, bool) {
+	var bits uint64
+	if a.k == sF64 {
+		if n, _ := fmt.Sscanf(a.t, "((_ to_fp 11 53) #x%016x)", &bits); n == 1 {
+			return math.Float64frombits(bits), true
+		}
+	}
+	return 0, false
+}
+
+// realCmpOffGrid decides a comparison between a grid value and a finite float64 constant
+// that is NOT on the grid, exactly: with A the scaled integer and c*2^G not an integer,
+// a<=c <=> A<=floor, a>c <=> A>floor, a<c <=> A<ceil, a>=c <=> A>=ceil, a==c is false.
+func realCmpOffGrid(op token.Token, a, b sym) (value, bool) {
+	flip := map[token.Token]token.Token{token.LSS: token.GTR, token.LEQ: token.GEQ, token.GTR: token.LSS, token.GEQ: token.LEQ, token.EQL: token.EQL, token.NEQ: token.NEQ}
+	if _, ok := flip[op]; !ok {
+		return nil, false
+	}
+	c, isConst := f64Const(b)
+	x := a
+	if !isConst {
+		if c, isConst = f64Const(a); !isConst {
+			return nil, false
+		}
+		x, op = b, flip[op]
+	}
+	if x.k != sReal || math.IsInf(c, 0) || math.IsNaN(c) {
+		return nil, false
+	}
+	r := new(big.Rat)
+	r.SetFloat64(c)
+	r.Mul(r, new(big.Rat).SetInt(gridScale()))
+	if r.IsInt() {
+		return nil, false
+	}
+	fl := new(big.Int).Div(r.Num(), r.Denom()) // Euclidean division, positive denominator: floor
+	ce := new(big.Int).Add(fl, big.NewInt(1))
+	switch op {
+	case token.LEQ:
+		return mkBool("(<= " + x.t + " " + intLit(fl) + ")"), true
+	case token.GTR:
+		return mkBool("(> " + x.t + " " + intLit(fl) + ")"), true
+	case token.LSS:
+		return mkBool("(< " + x.t + " " + intLit(ce) + ")"), true
+	case token.GEQ:
+		return mkBool("(>= " + x.t + " " + intLit(ce) + ")"), true
+	case token.EQL:
+		return mkBool("false"), true
+	case token.NEQ:
+		return mkBool("true"), true
+	}
+	return nil, false
+}
+
+// realMod is math.Mod on the grid: truncated remainder with the sign of x (exact: both
+// operands are multiples of 2^-G, so the remainder is one too).  A zero divisor gives NaN in
+// Go; the caller guards it.
+func realMod(x, y string) string {
+	absy := realAbs(y)
+	return "(ite (>= " + x + " 0) (mod " + x + " " + absy + ") (- (mod (- " + x + ") " + absy + ")))"
+}
+
 func realFloor(x string) string {
 	if gridBits == 0 {
 		return x
@@ -128,7 +192,27 @@ func realIsInt(x string) string {
 	return "(= (mod " + x + " " + gridScale().String() + ") 0)"
 }
 
-func realAbs(x string) string { return "(ite (>= " + x + " 0) " + x + " (- " + x + "))" }
+func realAbs(x string) string {
+	if isDigits(x) {
+		return x
+	}
+	if strings.HasPrefix(x, "(- ") && strings.HasSuffix(x, ")") && isDigits(x[3:len(x)-1]) {
+		return x[3 : len(x)-1]
+	}
+	return "(ite (>= " + x + " 0) " + x + " (- " + x + "))"
+}
+
+func isDigits(x string) bool {
+	if x == "" {
+		return false
+	}
+	for _, c := range x {
+		if c < '0' || c > '9' {
+			return false
+		}
+	}
+	return true
+}
 
 // freshGrid draws an exact-grid float: n/2^G, |n| <= 2^(r+G).
 func (e *Explorer) freshGrid(r int) (sym, string) {
@@ -191,7 +275,7 @@ func intBinop(op token.Token, a, b sym) value {
 	case token.REM:
 		// Go's %: truncated division, sign of the dividend.  For a zero divisor Go panics;
 		// the non-zero-divisor obligation is generated at materialisation.
-		absb := "(ite (>= " + b.t + " 0) " + b.t + " (- " + b.t + "))"
+		absb := realAbs(b.t)
 		return sym{sInt, 0, "(ite (>= " + a.t + " 0) (mod " + a.t + " " + absb + ") (- (mod (- " + a.t + ") " + absb + ")))"}
 	}
 	if f != "" {
